@@ -246,6 +246,32 @@ template <class T> void axis_angle_pairs (Tally& tl)
         }
 }
 
+// Near-axis rotations: one vector component dominant (+-1), the other two from {0, +-10^-j}, real part from
+// {0, +-0.005, +-0.25, +-0.5} (all in the trace <= 0 region of extractQuat, where the pivot must be the LARGEST
+// diagonal entry: a pivot on a tiny component divides by it and loses eps/c^2). Every (dominant axis, which small
+// component is smaller) pattern occurs, so each comparison of the three-way diagonal maximum is decisive.
+template <class T> void near_axis_quats (Tally& tl, long long cnt[3])
+{
+    const int  jmax = std::numeric_limits<T>::digits > 30 ? 8 : 4;
+    const LD   r0s[7] = {0, 0.005L, -0.005L, 0.25L, -0.25L, 0.5L, -0.5L};
+    std::vector<LD> small;
+    small.push_back (0);
+    for (int j = 1; j <= jmax; ++j) { small.push_back (powl (10.0L, -j)); small.push_back (-powl (10.0L, -j)); }
+    for (LD r0 : r0s)
+        for (int d = 0; d < 3; ++d)
+            for (int sg = -1; sg <= 1; sg += 2)
+                for (LD a : small)
+                    for (LD b : small)
+                    {
+                        LD v[3];
+                        v[d] = sg; v[(d + 1) % 3] = a; v[(d + 2) % 3] = b;
+                        Quat<T> q ((T) r0, (T) v[0], (T) v[1], (T) v[2]);
+                        q.normalize ();
+                        ++cnt[d];
+                        single<T> (tl, q, "near-axis q=normalized(" + vf::fmt ((double) r0) + "," + vf::fmt ((double) v[0]) + "," + vf::fmt ((double) v[1]) + "," + vf::fmt ((double) v[2]) + ")", false);
+                    }
+}
+
 } // namespace
 
 void run_unit ()
@@ -257,6 +283,10 @@ void run_unit ()
     lattice_quats<double> (tl, th);
     axis_angle_pairs<float> (tl);
     axis_angle_pairs<double> (tl);
+    long long na[3] = {0, 0, 0};
+    near_axis_quats<float> (tl, na);
+    near_axis_quats<double> (tl, na);
+    R ().cls ("near-axis.dominant-x", na[0]); R ().cls ("near-axis.dominant-y", na[1]); R ().cls ("near-axis.dominant-z", na[2]);
     R ().add ("states", tl.states); R ().add ("transitions", tl.trans); R ().add ("evaluations", tl.states);
     R ().cls ("unit.w<0", tl.w_neg);
     R ().cls ("unit.w=0", tl.w_zero);
@@ -275,7 +305,7 @@ void run_unit ()
     R ().note_max ("Quat vs Matrix44 setAxisAngle: worst entry in eps (bound 48)", tl.w_qm);
     R ().sample ("q=normalized(1,-2,0,2): exp(log q) == q to 8 eps(1+cond); setAxisAngle(axis(),angle()) == q");
     R ().stage_done (std::string ("624 normalised integer quaternions x {normalize, inverse, matrices, extractQuat, exp/log, axis/angle, 125 vectors x 4 rotation entry points}; products ") +
-                     (th ? "all 624^2" : "every 5th of 624^2") + "; 29 axes x 124 angles axis-angle pairs; float and double");
+                     (th ? "all 624^2" : "every 5th of 624^2") + "; 29 axes x 124 angles axis-angle pairs; near-axis family 7 real parts x 3 dominant axes x 2 signs x {0,+-10^-j}^2; float and double");
 }
 
 } // namespace c10
